@@ -1237,12 +1237,13 @@ func (cs *ClientSession) ListPrompts(ctx context.Context, params *ListPromptsPar
 		}
 		params = injectRequestMeta(cs, params)
 	}
+	gen := cs.promptsCache.generation()
 	result, err := handleSend[*ListPromptsResult](ctx, methodListPrompts, newClientRequest(cs, orZero[Params](params)))
 	if err != nil {
 		return nil, err
 	}
 	if cs.usesNewProtocol() {
-		cs.promptsCache.put(params.Cursor, result)
+		cs.promptsCache.putIfCurrent(params.Cursor, result, gen)
 	}
 	return result, nil
 }
@@ -1263,13 +1264,14 @@ func (cs *ClientSession) ListTools(ctx context.Context, params *ListToolsParams)
 		}
 		params = injectRequestMeta(cs, params)
 	}
+	gen := cs.toolsCache.generation()
 	result, err := handleSend[*ListToolsResult](ctx, methodListTools, newClientRequest(cs, orZero[Params](params)))
 	if err != nil {
 		return nil, err
 	}
 	result.Tools = filterValidTools(cs.client.opts.Logger, result.Tools)
 	if cs.usesNewProtocol() {
-		cs.toolsCache.put(params.Cursor, result)
+		cs.toolsCache.putIfCurrent(params.Cursor, result, gen)
 	}
 	return result, nil
 }
@@ -1315,12 +1317,13 @@ func (cs *ClientSession) ListResources(ctx context.Context, params *ListResource
 		}
 		params = injectRequestMeta(cs, params)
 	}
+	gen := cs.resourcesCache.generation()
 	result, err := handleSend[*ListResourcesResult](ctx, methodListResources, newClientRequest(cs, orZero[Params](params)))
 	if err != nil {
 		return nil, err
 	}
 	if cs.usesNewProtocol() {
-		cs.resourcesCache.put(params.Cursor, result)
+		cs.resourcesCache.putIfCurrent(params.Cursor, result, gen)
 	}
 	return result, nil
 }
@@ -1333,12 +1336,13 @@ func (cs *ClientSession) ListResourceTemplates(ctx context.Context, params *List
 		}
 		params = injectRequestMeta(cs, params)
 	}
+	gen := cs.resourceTemplatesCache.generation()
 	result, err := handleSend[*ListResourceTemplatesResult](ctx, methodListResourceTemplates, newClientRequest(cs, orZero[Params](params)))
 	if err != nil {
 		return nil, err
 	}
 	if cs.usesNewProtocol() {
-		cs.resourceTemplatesCache.put(params.Cursor, result)
+		cs.resourceTemplatesCache.putIfCurrent(params.Cursor, result, gen)
 	}
 	return result, nil
 }
@@ -1355,12 +1359,13 @@ func (cs *ClientSession) ReadResource(ctx context.Context, params *ReadResourceP
 		}
 		params = injectRequestMeta(cs, params)
 	}
+	gen := cs.readResourceCache.generation()
 	result, err := handleSend[*ReadResourceResult](ctx, methodReadResource, newClientRequest(cs, orZero[Params](params)))
 	if err != nil {
 		return nil, err
 	}
 	if cs.usesNewProtocol() {
-		cs.readResourceCache.put(params.URI, result)
+		cs.readResourceCache.putIfCurrent(params.URI, result, gen)
 	}
 	return result, nil
 }
